@@ -250,7 +250,9 @@ class Prover:
             for name, t in c.symbols.items():
                 if z3.is_real(t):
                     s.add(t <= 8, t >= -8)
-            s.set("timeout", 2000)
+            for w in getattr(c, "witness_prefs", []):
+                s.add(w)
+            s.set("timeout", 3000)
             if s.check() == z3.sat:
                 o.model = model_env(s.model(), c)
             s.pop()
@@ -277,6 +279,8 @@ class Prover:
         for name, t in c.symbols.items():
             if z3.is_real(t):
                 s.add(t <= 8, t >= -8)
+        for w in getattr(c, "witness_prefs", []):
+            s.add(w)
         r = s.check()
         if r != z3.sat:
             s.pop()
